@@ -3,7 +3,7 @@ HOOK_COMMITS = ["d5fe92d", "HEAD~0 (see git log --grep='verif hooks' in /repo)"]
 ENGINES = [
     {"name": "kgx", "path": "harness/kgx", "serves_properties": ["C10"], "kind_free_text": "in-process keep-going BuildSystemFrontend runner: failing-subset x flag x failure-kind enumeration with recorded failures"},
     {"name": "worldx2", "path": "harness/worldx2", "serves_properties": ["C12", "C11"], "kind_free_text": "directory-tree shape x edit explorer and discovered-dependency history explorer on top of worldx"},
-    {"name": "worldx3", "path": "harness/worldx3", "serves_properties": ["C18"], "kind_free_text": "Ninja manifest family x edit-history explorer through `llbuild ninja build` on top of worldx"},
+    {"name": "worldx3", "path": "harness/worldx3", "serves_properties": ["C18", "C04", "C11"], "kind_free_text": "Ninja manifest family x edit-history explorer through `llbuild ninja build` on top of worldx"},
     {"name": "stalex", "path": "harness/stalex", "serves_properties": ["C14"], "kind_free_text": "in-process stale-file-removal runner with recording file system, exhaustive list/roots triples"},
     {"name": "procx", "path": "harness/procx", "serves_properties": ["C16"], "kind_free_text": "enumeration of child-process behaviours through the real execution queues"},
     {"name": "tsanx", "path": "harness/tsanx", "serves_properties": ["C05", "C06", "C16"], "kind_free_text": "schedx thread bodies free-running under ThreadSanitizer (sampling; supplementary to schedx for the data-race clause)"},
@@ -20,7 +20,7 @@ ENGINES = [
      "kind_free_text": "bounded-exhaustive enumeration of parser inputs in exact-size buffers under AddressSanitizer / guard pages; codec round trips"},
     {"name": "ninjax", "path": "harness/ninjax", "serves_properties": ["C17"],
      "kind_free_text": "bounded-exhaustive manifest grammar, differential against /usr/bin/ninja 1.11.1; shell-quoting round trip through /bin/sh"},
-    {"name": "enginex", "path": "harness/enginex", "serves_properties": ["C01", "C02", "C03", "C05", "C06", "C07", "C20"],
+    {"name": "enginex", "path": "harness/enginex", "serves_properties": ["C01", "C02", "C03", "C04", "C05", "C06", "C07", "C20"],
      "kind_free_text": "explicit-state breadth-first search over event histories; every transition runs the real BuildEngine (and SQLite BuildDB) "
                        "under a chooser that owns completion order, delivery points and cancellation points; reference evaluator + shadow record as oracles"},
 ]
@@ -72,11 +72,14 @@ TEXT = {
 TEXT.update({
     "C04": {"design_ref": "DESIGN.md §4.4, §5 C04",
             "technique": "exhaustive crash-point enumeration: the process is killed before every libc call that touches the database or its journal, then recovery + continuation on the real code",
-            "text": "For 8 worlds x 4 (8 thorough) histories on the real engine with the real SQLite BuildDB, a forked child runs the history and _exit()s immediately "
+            "text": "For 8 worlds x 5 (10 thorough) histories (two of them with a gracefully cancelled build) and a fan world of 1100 (5000) rules on the real engine with the real SQLite BuildDB, a forked child runs the history and _exit()s immediately "
                     "before the N-th open-for-write/pwrite/write/fsync/fdatasync/ftruncate/unlink on the database, its journal or directory, for every N (including "
                     "schema creation); the parent then opens the file with a fresh BuildDB (stored epoch >= every result epoch, every dependency resolves, every stored "
                     "record is one the engine handed over with the dependency list of the same execution, PRAGMA integrity_check ok) and runs 6 (12) continuation "
-                    "histories whose every build must succeed with the clean-build value, including worlds whose output cells the killed build had already rewritten.",
+                    "histories whose every build must succeed with the clean-build value, including worlds whose output cells the killed build had already rewritten. "
+                    "Part enginex: graceful interruption then process death - over the 41 curated rule worlds in database mode: build K, set any subset of leaves, rebuild K cancelled at EVERY "
+                    "step or failed at every database write, new process on that database, any one / all of the leaves put back, rebuild K: clean-build value and consistent persisted records. "
+                    "Part worldx3: the `llbuild ninja` tool SIGKILLed while a command has half-written its outputs; the continued build must give clean-build contents.",
             "note": "Process death only (writes already issued persist); power loss / torn sectors are not claimed by the property."},
     "C20": {"design_ref": "DESIGN.md §5 C20",
             "technique": "explicit-state model checking with a twin driver: every history runs through the C++ interface and through the libllbuild C interface, event logs and databases compared",
@@ -87,8 +90,8 @@ TEXT.update({
             "note": "The C API offers no cancellation, prior values or single-use requests, so those are outside this check."},
     "C08": {"design_ref": "DESIGN.md §4.5, §5 C08",
             "technique": "bounded-exhaustive exploration of edit histories through the real llbuild tool (new process per build) against a reference evaluator cross-checked with clean builds",
-            "text": "28 description families (shell via a deterministic helper, phony, mkdir, symlink; file, virtual, directory-tree and directory-structure nodes; multiple outputs; "
-                    "shared sub-graphs), each with 2-4 description variants: every history up to 3 events (4 for 7 families; thorough 4 resp. 5) of {edit / same-size rewrite a source, "
+            "text": "32 description families (shell via a deterministic helper, phony, mkdir, symlink, archive (`ar`, members read back from the archive); file, virtual, directory-tree and directory-structure nodes; multiple outputs; "
+                    "shared sub-graphs), each with 2-4 description variants: every history up to 3 events (4 for 12 families; thorough 4 resp. 5) of {edit / same-size rewrite a source, "
                     "delete or overwrite an output, switch description, build a target}, serial and -j4, is replayed from scratch in a fresh sandbox with logical-clock mtimes; after "
                     "each successful build every output reachable from the target must have the reference content.",
             "note": "Only observable edits (logical clock); real compilers and timestamps not produced by the clock are outside."},
@@ -105,14 +108,19 @@ TEXT.update({
                     "non-zero, the next build must retry the failed commands, and after repair the build must converge to the clean-build state; plus SIGINT scenarios with a gated helper.",
             "note": "Cancellation timing of -j4 runs is real time (one gated command per scenario). Second part (kgx): the same oracle in process under a KEEP-GOING client (a BuildSystemFrontend "
                     "delegate that counts failures and does not cancel, new frontend per build on one SQLite database): 6 (10) descriptions x every failing subset x {no flag, allow-modified-outputs, "
-                    "allow-missing-inputs} x {fail-before, fail-after, kill-after, term-after} x lanes x with/without a prior successful build; failed results are really recorded there and must be retried."},
+                    "allow-missing-inputs} x {fail-before, fail-after, kill-after, term-after} x lanes x with/without a prior successful build; failed results are really recorded there and must be retried. "
+                    "Tool scenarios (kgx): a mkdir / symlink command that fails without a process (path occupied by a file, parent of the link a file, missing declared input) x repair {cause removed, "
+                    "cause removed and the output made by hand beside the recorded failure} x prior build: two failing builds report failure, the build after repair converges."},
     "C11": {"design_ref": "DESIGN.md §5 C11",
             "technique": "bounded-exhaustive enumeration of dependency files (all path strings over the format's special characters x layouts, all truncations) on the real parsers under ASan",
             "text": "All path strings up to length 4 (6 thorough) over {a,' ','#','$','\\',':','/','.'} and pairs of them, rendered with the documented escaping into "
                     "single-rule, two-rule, continuation and CRLF layouts, must be recovered byte for byte by MakefileDepsParser; all dependency-info files with up to 2 (3) "
                     "records over a hostile operand alphabet likewise; every truncation and structural fault must be reported through the error callback.",
             "note": "History part (worldx2): 48 path classes (spaces, '#', '$', backslash, colon, leading/trailing/doubled, sub-directory, absolute, relative under a working-directory) x "
-                    "{makefile, dependency-info, P named only in the second of two dependency files} x P initially present/missing x every history of <=2 (3) steps of {modify, delete, create P, touch nothing} through the real tool: the command re-executes iff P changed; malformed dependency files fail the build."},
+                    "{makefile, dependency-info, P named only in the second of two dependency files} x P initially present/missing x every history of <=2 (3) steps of {modify, delete, create P, touch nothing} through the real tool: the command re-executes iff P changed; malformed dependency files fail the build. "
+                    "Ninja part (worldx3 --prop C11): the six manifest families whose statements report discovered dependencies (depfile / deps = gcc; on a generator statement; next to an order-only "
+                    "input; consumer declared before its phony / restat producers; generated header; two discovered files): every history of <= 3 (4) events through `llbuild ninja build`, "
+                    "contents = clean build, a changed discovered input re-runs the command, an unchanged one does not, null builds run nothing."},
     "C12": {"design_ref": "DESIGN.md §5 C12",
             "technique": "bounded-exhaustive exploration of directory-tree shapes x edits through the real llbuild tool against a reference listing model",
             "text": "All 145 (1513 thorough) trees of depth <=2 and fan-out <=2 over {file, dir, symlink} with names {a, b, k.x}: the null control and every single edit (add, remove, rename, "
@@ -122,7 +130,7 @@ TEXT.update({
             "note": "Compound edits that restore the structure, chmod and a directory's own mtime are enumerated but not asserted (statement silent)."},
     "C18": {"design_ref": "DESIGN.md §5 C18",
             "technique": "bounded-exhaustive exploration of edit histories through `llbuild ninja build` (new process per build) against a reference evaluator cross-checked with clean builds",
-            "text": "10 (23) Ninja manifest families with 3-7 variants each (explicit/implicit/order-only inputs, multiple outputs, phony, depfile, restat, generator, pool): every history up to "
+            "text": "13 (26) Ninja manifest families with 3-7 variants each (explicit/implicit/order-only inputs, multiple outputs, phony, depfile, restat, generator, generator with depfile, consumer declared before its phony/restat producers, pool): every history up to "
                     "3 (4; 5 for two families) events of {rewrite/touch a source, delete an output, switch manifest variant, build}, with --jobs 1 and 4, with and without database, plus a failure "
                     "phase (fail-before/after of each command and death of its shell by SIGTERM, repair, rebuild, null build; -k 1 and -k 0): contents equal the clean build, an immediate rebuild runs nothing, order-only inputs "
                     "never trigger, implicit/depfile inputs and command changes do, a failing command stops dependents and is retried.",
